@@ -431,37 +431,48 @@ Proof. exact cap_complement_covers_under_H. Qed.
 Print Assumptions cap_complement_covers_H.
 
 (** s1.Interval.Expanded / s2.Rect.expanded --------------------------------
-    FINDING: "expansion by a non-negative margin keeps every original point" is false of
-    s1.Interval.Expanded as it is: when Length + 2*margin + 2*dblEpsilon evaluates to one ulp
-    below 2*pi the result is a single point. *)
-Theorem s1_expanded_keeps_everything_refuted : exists i m p,
+    History: before /repo commit 44b3e8d the full-circle guard added 2*dblEpsilon (half an ulp of
+    2*pi) and Expanded returned a single point one ulp below it. *)
+Theorem s1_expanded_keeps_everything_old_refuted : exists i m p,
   s1_Interval_IsValid i = true /\ PrimFloat.leb 0%float m = true /\
   s1_Interval_Contains i p = true /\
+  s1_Interval_Contains (s1_Interval_Expanded_old i m) p = false.
+Proof. exact s1_expanded_old_refuted. Qed.
+Print Assumptions s1_expanded_keeps_everything_old_refuted.
+
+(** FINDING (present): Length() is -1 for the valid non-empty interval {pi, succ(-pi)}, so the
+    guard does not fire for margins in [pi, pi+1/2) and the result loses every point. *)
+Theorem s1_expanded_keeps_everything_refuted : exists i m p,
+  s1_Interval_IsValid i = true /\ s1_Interval_IsEmpty i = false /\ PrimFloat.leb 0%float m = true /\
+  s1_Interval_Contains i p = true /\
+  PrimFloat.ltb (s1_Interval_Length i) 0%float = true /\
   s1_Interval_IsValid (s1_Interval_Expanded i m) = true /\
   s1_Interval_Contains (s1_Interval_Expanded i m) p = false.
 Proof. exact s1_expanded_refuted. Qed.
 Print Assumptions s1_expanded_keeps_everything_refuted.
 
-(** outside that one-ulp zone ([exp_safe]: empty, or the guard fires, or its value is at least
-    two ulps below 2*pi) and under the named hypothesis H_S1EXPAND (there the two wrapped
-    endpoints enclose the original arc: float expressions and reals only) the property holds;
-    the theorems add the code's branching and the normalisations of -pi. *)
-Theorem s1_expanded_keeps_everything_H : H_S1EXPAND -> forall i m x,
-  valid_s1 i -> nonnan m -> 0 <= rank m -> exp_safe i m -> inrange x ->
-  mem_s1 i x -> mem_s1 (s1_Interval_Expanded i m) x.
+(** Outside that case ([len_ok]: Length() >= 0, or margin <= 3) the property holds for every valid
+    interval and every non-NaN margin >= 0 (+Inf included): rounding analysis of the guard and
+    of the two endpoint computations in Flocq; the only named hypothesis is H_REMAINDER
+    (math.Remainder(x, 2*pi) is x minus an integer multiple of 2*pi, lies in [-pi,pi], and is the
+    identity on [-pi,pi] — a fact about one float function). *)
+Theorem s1_expanded_keeps_everything_H : H_REMAINDER -> forall i m x,
+  valid_s1 i -> nonnan m -> 0 <= rank m -> len_ok (s1_Interval_Lo i) (s1_Interval_Hi i) m ->
+  inrange x -> mem_s1 i x -> mem_s1 (s1_Interval_Expanded i m) x.
 Proof. exact s1_expanded_sound_under_H. Qed.
 Print Assumptions s1_expanded_keeps_everything_H.
 
-Theorem s1_expanded_valid_H : H_S1EXPAND -> forall i m,
-  valid_s1 i -> nonnan m -> 0 <= rank m -> exp_safe i m -> valid_s1 (s1_Interval_Expanded i m).
+Theorem s1_expanded_valid_H : H_REMAINDER -> forall i m,
+  valid_s1 i -> nonnan m -> 0 <= rank m -> len_ok (s1_Interval_Lo i) (s1_Interval_Hi i) m ->
+  valid_s1 (s1_Interval_Expanded i m).
 Proof. exact s1_expanded_valid_under_H. Qed.
 Print Assumptions s1_expanded_valid_H.
 
-Theorem s2rect_expanded_keeps_everything_H : H_S1EXPAND -> forall r mg lat x,
+Theorem s2rect_expanded_keeps_everything_H : H_REMAINDER -> forall r mg lat x,
   valid_s2rect r -> vlat lat -> inrange x ->
   nonnan (s2_LatLng_Lat mg) -> 0 <= rank (s2_LatLng_Lat mg) ->
   nonnan (s2_LatLng_Lng mg) -> 0 <= rank (s2_LatLng_Lng mg) ->
-  exp_safe (s2_Rect_Lng r) (s2_LatLng_Lng mg) ->
+  len_ok (s1_Interval_Lo (s2_Rect_Lng r)) (s1_Interval_Hi (s2_Rect_Lng r)) (s2_LatLng_Lng mg) ->
   wf1 (r1_Interval_Expanded (s2_Rect_Lat r) (s2_LatLng_Lat mg)) ->
   mem_s2rect r lat x -> mem_s2rect (s2_Rect_expanded r mg) lat x.
 Proof. exact s2rect_expanded_sound_under_H. Qed.
